@@ -2,7 +2,7 @@ use alloc::vec::Vec;
 use starknet_crypto::Felt;
 use swiftness_air::{domains::StarkDomains, layout::LayoutTrait, public_memory::PublicInput};
 use swiftness_commitment::table::commit::table_commit;
-use swiftness_fri::fri::fri_commit;
+use swiftness_fri::fri::{self, fri_commit, fri_validate_unsent_commitment};
 use swiftness_pow::pow;
 use swiftness_transcript::transcript::Transcript;
 
@@ -50,6 +50,7 @@ pub fn stark_commit<Layout: LayoutTrait>(
         powers_array(Felt::ONE, oods_alpha, (Layout::MASK_SIZE + Layout::CONSTRAINT_DEGREE) as u32);
 
     // Read fri commitment.
+    fri_validate_unsent_commitment(&unsent_commitment.fri, &config.fri)?;
     let fri_commitment = fri_commit(transcript, unsent_commitment.fri.clone(), config.fri.clone());
 
     // Proof of work commitment phase.
@@ -95,6 +96,9 @@ pub enum Error {
 
     #[error("OodsVerifyError Error")]
     Oods(#[from] oods::OodsVerifyError),
+
+    #[error("Fri Error")]
+    Fri(#[from] fri::Error),
 }
 
 #[cfg(not(feature = "std"))]
@@ -108,4 +112,7 @@ pub enum Error {
 
     #[error("OodsVerifyError Error")]
     Oods(#[from] oods::OodsVerifyError),
+
+    #[error("Fri Error")]
+    Fri(#[from] fri::Error),
 }
